@@ -46,6 +46,25 @@ def pFault : Wire.P Flt := do
   | "fault" => do let tg ← pTarget; let k ← nat; let e ← pExc; pure (some (tg, k, e))
   | _ => failure
 
+def pWhence : Wire.P Whence := do
+  let t ← word
+  match t with
+  | "start" => pure .start | "current" => pure .current | "end" => pure .end_
+  | _ => failure
+
+def pCtlKind : Wire.P CtlKind := do
+  let t ← word
+  match t with
+  | "size" => pure .size | "duration" => pure .duration | "padding" => pure .padding | "args" => pure .args
+  | _ => failure
+
+def pCb : Wire.P CbKind := do
+  let t ← word
+  match t with
+  | "close" => pure .close | "next" => pure .next
+  | "seek" => do let wh ← pWhence; let off ← int; pure (.seek wh off)
+  | _ => failure
+
 def pOp : Wire.P Op := do
   let t ← word
   match t with
@@ -69,7 +88,9 @@ def pOp : Wire.P Op := do
     | _ => failure
   | "next" => do let i ← nat; pure (.next i)
   | "close" => do let i ← nat; pure (.close i)
-  | "seek" => do let i ← nat; let n ← nat; pure (.seek i n)
+  | "seek" => do let i ← nat; let wh ← pWhence; let off ← int; pure (.seek i wh off)
+  | "set" => do let i ← nat; let k ← pCtlKind; let fr ← bool; pure (.set i k fr)
+  | "nextCb" => do let i ← nat; let cb ← pCb; pure (.nextCb i cb)
   | "bump" => do let i ← nat; pure (.bump i)
   | "dropIter" => do let i ← nat; pure (.dropIter i)
   | "cfin" => do let d ← nat; pure (.callerFinalize d)
@@ -83,6 +104,9 @@ def evStr : Ev → String
   | .create d => s!"c{d}"
   | .render d f => s!"r{d}:{fmtBool f}"
   | .fin d b => s!"f{d}:{byName b}"
+  | .cb none => "cb:ok"
+  | .cb (some e) => s!"cb:{excName e}"
+  | .renderEnd d f => s!"e{d}:{fmtBool f}"
 
 def outcomeStr : Option (Option Exc) → String
   | none => "skip"
